@@ -1,0 +1,153 @@
+// SPDX-FileCopyrightText: 2026 The Pion community <https://pion.ly>
+// SPDX-License-Identifier: MIT
+
+//go:build verif
+
+package allocation
+
+import (
+	"net"
+	"sort"
+)
+
+// This file is compiled only with the `verif` build tag. It adds read-only observation
+// hooks for the external runtime-verification harness; it changes no behaviour.
+
+// VerifChannel is one channel binding of a snapshot.
+type VerifChannel struct {
+	Number uint16
+	Peer   string
+}
+
+// VerifTCPConn is one peer TCP connection of a snapshot.
+type VerifTCPConn struct {
+	ID    uint32
+	Peer  string
+	Local string
+	Bound bool
+}
+
+// VerifAlloc is a snapshot of one allocation.
+type VerifAlloc struct {
+	Handle      *Allocation
+	Src, Dst    string
+	UserID      string
+	Realm       string
+	Relay       string
+	TCP         bool
+	Family      int
+	Closed      bool
+	Permissions []string
+	Channels    []VerifChannel
+	TCPConns    []VerifTCPConn
+}
+
+func verifAddr(a net.Addr) string {
+	if a == nil {
+		return ""
+	}
+
+	return a.String()
+}
+
+// VerifSnapshot returns the manager's state. ok is false when one of the locks could not be
+// taken without blocking (which, at a quiescent point, means a lock has been leaked).
+func (m *Manager) VerifSnapshot() (out []VerifAlloc, reservations int, ok bool) {
+	if !m.lock.TryRLock() {
+		return nil, 0, false
+	}
+	defer m.lock.RUnlock()
+
+	reservations = len(m.reservations)
+	for _, a := range m.allocations {
+		s := VerifAlloc{
+			Handle: a,
+			Src:    verifAddr(a.fiveTuple.SrcAddr),
+			Dst:    verifAddr(a.fiveTuple.DstAddr),
+			UserID: a.userID,
+			Realm:  a.realm,
+			Relay:  verifAddr(a.RelayAddr),
+			TCP:    a.relayListener != nil,
+			Family: int(a.addressFamily),
+		}
+		select {
+		case <-a.closed:
+			s.Closed = true
+		default:
+		}
+		if !a.permissionsLock.TryRLock() {
+			return nil, 0, false
+		}
+		for k := range a.permissions {
+			s.Permissions = append(s.Permissions, k)
+		}
+		a.permissionsLock.RUnlock()
+		sort.Strings(s.Permissions)
+
+		if !a.channelBindingsLock.TryRLock() {
+			return nil, 0, false
+		}
+		for _, c := range a.channelBindings {
+			s.Channels = append(s.Channels, VerifChannel{Number: uint16(c.Number), Peer: verifAddr(c.Peer)})
+		}
+		a.channelBindingsLock.RUnlock()
+		sort.Slice(s.Channels, func(i, j int) bool { return s.Channels[i].Number < s.Channels[j].Number })
+
+		for id, c := range a.tcpConnections {
+			s.TCPConns = append(s.TCPConns, VerifTCPConn{
+				ID: uint32(id), Peer: verifAddr(c.RemoteAddr()), Local: verifAddr(c.LocalAddr()), Bound: c.isBound.Load(),
+			})
+		}
+		sort.Slice(s.TCPConns, func(i, j int) bool { return s.TCPConns[i].ID < s.TCPConns[j].ID })
+		out = append(out, s)
+	}
+	sort.Slice(out, func(i, j int) bool { return out[i].Src+out[i].Dst < out[j].Src+out[j].Dst })
+
+	return out, reservations, true
+}
+
+// VerifLocksHeld names every manager/allocation mutex that cannot be write-locked right now.
+// At a quiescent point (no request in flight, no callback running) the result must be empty.
+func (m *Manager) VerifLocksHeld() []string {
+	if !m.lock.TryLock() {
+		return []string{"Manager.lock"}
+	}
+	defer m.lock.Unlock()
+
+	var held []string
+	for _, a := range m.allocations {
+		if a.permissionsLock.TryLock() {
+			a.permissionsLock.Unlock()
+		} else {
+			held = append(held, "Allocation.permissionsLock "+verifAddr(a.fiveTuple.SrcAddr))
+		}
+		if a.channelBindingsLock.TryLock() {
+			a.channelBindingsLock.Unlock()
+		} else {
+			held = append(held, "Allocation.channelBindingsLock "+verifAddr(a.fiveTuple.SrcAddr))
+		}
+	}
+
+	return held
+}
+
+// VerifClosed reports whether Close has run on the allocation.
+func (a *Allocation) VerifClosed() bool {
+	select {
+	case <-a.closed:
+		return true
+	default:
+		return false
+	}
+}
+
+// VerifStopLifetimeTimerIfClosed reports whether the lifetime timer of an allocation that has
+// already been closed was still armed (a leaked timer). It stops the timer as a side effect,
+// which is harmless on a closed allocation; on a live allocation it does nothing.
+func (a *Allocation) VerifStopLifetimeTimerIfClosed() (armed bool) {
+	if !a.VerifClosed() || a.lifetimeTimer == nil {
+		return false
+	}
+
+	return a.lifetimeTimer.Stop()
+}
